@@ -88,6 +88,13 @@ def dict_sub(a, b):
     return tmp
 
 def dict_mul(a, b):
+    for x, y in ((a, b), (b, a)):
+        # a register term can only be multiplied by a scale; its 'size'
+        # string is repeated below (arg2txt relies on it), so an arbitrary
+        # factor would build an arbitrarily long string
+        if list(x.keys()) == [x86_afs.imm] and x86_afs.size in y \
+                and not x[x86_afs.imm] in [1, 2, 4, 8]:
+            raise ValueError('bad dict mul %s %s'%(a,b))
     if list(a.keys()) == [x86_afs.imm]:
         ret = {}
         for k in b:
